@@ -13,6 +13,7 @@ import (
 	"github.com/oasisprotocol/oasis-core/go/common/cbor"
 	"github.com/oasisprotocol/oasis-core/go/common/logging"
 	"github.com/oasisprotocol/oasis-core/go/storage/mkvs/db/api"
+	"github.com/oasisprotocol/oasis-core/go/storage/mkvs/db/api/verifhook"
 	"github.com/oasisprotocol/oasis-core/go/storage/mkvs/node"
 	"github.com/oasisprotocol/oasis-core/go/storage/mkvs/writelog"
 )
@@ -454,9 +455,11 @@ func (d *badgerNodeDB) Finalize(roots []node.Root) error { // nolint: gocyclo
 	if err := batch.Flush(); err != nil {
 		return err
 	}
+	verifhook.CrashPoint("pathbadger.finalize.afterCopyFlush")
 	if err := batchMeta.Flush(); err != nil {
 		return err
 	}
+	verifhook.CrashPoint("pathbadger.finalize.afterCopyMetaFlush")
 	batch = d.db.NewWriteBatchAt(versionToTs(version))
 	defer batch.Cancel()
 	batchMeta = d.db.NewWriteBatchAt(tsMetadata)
@@ -501,13 +504,16 @@ func (d *badgerNodeDB) Finalize(roots []node.Root) error { // nolint: gocyclo
 	if err := batch.Flush(); err != nil {
 		return err
 	}
+	verifhook.CrashPoint("pathbadger.finalize.afterDeleteFlush")
 	if err := batchMeta.Flush(); err != nil {
 		return err
 	}
+	verifhook.CrashPoint("pathbadger.finalize.afterDeleteMetaFlush")
 
 	// Update last finalized version.
 	d.meta.setLastFinalizedVersion(version)
 	d.meta.commit(tx)
+	verifhook.CrashPoint("pathbadger.finalize.afterMetaCommit")
 
 	// Clean multipart metadata if there is any.
 	if d.multipartVersion != multipartVersionNone {
@@ -620,9 +626,11 @@ func (d *badgerNodeDB) Prune(version uint64) error {
 	if err := batch.Flush(); err != nil {
 		return fmt.Errorf("mkvs/pathbadger: failed to flush batch: %w", err)
 	}
+	verifhook.CrashPoint("pathbadger.prune.afterBatchFlush")
 	if err := batchMeta.Flush(); err != nil {
 		return fmt.Errorf("mkvs/pathbadger: failed to flush batch: %w", err)
 	}
+	verifhook.CrashPoint("pathbadger.prune.afterMetaFlush")
 
 	// Update metadata.
 	d.meta.setEarliestVersion(version + 1)
@@ -714,6 +722,7 @@ func (d *badgerNodeDB) NewBatch(oldRoot node.Root, version uint64, chunk bool) (
 			return nil, err
 		}
 		d.meta.commit(tx)
+		verifhook.CrashPoint("pathbadger.newBatch.afterSeqNoCommit")
 		// Start a fresh index.
 		lastIndex = new(atomic.Uint32)
 		lastIndex.Store(indexRootNode)
@@ -918,6 +927,7 @@ func (ba *badgerBatch) Commit(root node.Root) error {
 		return fmt.Errorf("mkvs/pathbadger: failed to set pending root seqno: %w", err)
 	}
 	ba.db.meta.commit(tx)
+	verifhook.CrashPoint("pathbadger.commit.afterSeqNoCommit")
 
 	if !ba.chunk {
 		// Store updated nodes (only needed until the version is finalized).
@@ -941,6 +951,7 @@ func (ba *badgerBatch) Commit(root node.Root) error {
 	if err := ba.batMeta.Flush(); err != nil {
 		return fmt.Errorf("mkvs/pathbadger: failed to flush batch: %w", err)
 	}
+	verifhook.CrashPoint("pathbadger.commit.afterMetaFlush")
 	if err := ba.bat.Flush(); err != nil {
 		return fmt.Errorf("mkvs/pathbadger: failed to flush batch: %w", err)
 	}
